@@ -50,7 +50,8 @@ Qed.
 (** ** pure facts about probe-set insertion *)
 Lemma ins_sorted_in x b y : In y (ins_sorted x b) <-> y = x \/ In y b.
 Proof.
-  induction b as [|z r IH]; cbn; [intuition|]. destruct (Nat.ltb (key_of z) (key_of x)); cbn; [rewrite IH|]; intuition.
+  induction b as [|z r IH]; cbn [ins_sorted]; [cbn; intuition|].
+  destruct (Nat.ltb (key_of z) (key_of x)); cbn [In]; [rewrite IH|]; intuition.
 Qed.
 Lemma ins_item_in ord x b y : In y (ins_item ord x b) <-> y = x \/ In y b.
 Proof. unfold ins_item. destruct ord; [apply ins_sorted_in|]. rewrite in_app_iff. cbn. intuition. Qed.
@@ -64,22 +65,26 @@ Qed.
 
 Lemma ins_sorted_keys_nodup x b : ~ In (fst x) (keys b) -> NoDup (keys b) -> NoDup (keys (ins_sorted x b)).
 Proof.
-  induction b as [|z r IH]; intros Hk Hn; cbn; [constructor; [intros []|constructor]|].
-  cbn in Hk. inversion Hn; subst.
-  destruct (Nat.ltb (key_of z) (key_of x)); cbn.
-  - constructor; [|apply IH; auto]. intros Hin. apply in_map_iff in Hin. destruct Hin as (y & E & Hy).
-    apply ins_sorted_in in Hy. destruct Hy as [->|Hy].
-    + apply Hk. now left.
-    + apply H1. rewrite <- E. now apply in_map.
-  - constructor; [exact Hk|constructor; auto].
+  induction b as [|z r IH]; intros Hk Hn; cbn [ins_sorted].
+  - cbn. constructor; [intros []|constructor].
+  - assert (Hk1 : fst z <> fst x) by (intros E; apply Hk; now left).
+    assert (Hk2 : ~ In (fst x) (keys r)) by (intros E; apply Hk; now right).
+    unfold keys in Hn. cbn [map] in Hn. inversion Hn; subst.
+    destruct (Nat.ltb (key_of z) (key_of x)); unfold keys; cbn [map].
+    + constructor; [|apply IH; auto]. intros Hin. apply in_map_iff in Hin. destruct Hin as (y & E & Hy).
+      apply ins_sorted_in in Hy. destruct Hy as [->|Hy]; [congruence|]. apply H1. rewrite <- E. now apply in_map.
+    + constructor; [intros [E|E]; [congruence|contradiction]|constructor; auto].
 Qed.
 
 Lemma NoDup_snoc_keys (b : list item) x : ~ In (fst x) (keys b) -> NoDup (keys b) -> NoDup (keys (b ++ [x])).
 Proof.
-  induction b as [|z r IH]; intros Hk Hn; cbn; [constructor; [intros []|constructor]|].
-  cbn in Hk. inversion Hn; subst. constructor.
-  - unfold keys. rewrite map_app, in_app_iff. cbn. intros [H|[H|[]]]; [contradiction|]. apply Hk. now left.
-  - apply IH; auto.
+  induction b as [|z r IH]; intros Hk Hn.
+  - cbn. constructor; [intros []|constructor].
+  - assert (Hk1 : fst z <> fst x) by (intros E; apply Hk; now left).
+    assert (Hk2 : ~ In (fst x) (keys r)) by (intros E; apply Hk; now right).
+    unfold keys in Hn. cbn [map] in Hn. inversion Hn; subst. unfold keys. cbn [app map]. constructor.
+    + rewrite map_app, in_app_iff. cbn. intros [H|[H|[]]]; [contradiction|congruence].
+    + apply IH; auto.
 Qed.
 
 Lemma ins_item_keys_nodup ord x b : khas (fst x) b = false -> NoDup (keys b) -> NoDup (keys (ins_item ord x b)).
@@ -683,6 +688,53 @@ Section Inv.
 
   Lemma Core_seta g a atr : Core g a -> Core g (seta a atr).
   Proof. intros [K1 K2 K3 K4 K5 K6 K7 K8 K9 K10 K11 K12 K13 K14 K15 K16 K17]. constructor; assumption. Qed.
+
+  (** the thread forgets some of its in-flight / pending items (only the views change) *)
+  Lemma Core_fp g a t v' :
+    Core g a -> v_held v' = held a t -> v_mic v' = mic a t -> v_mask v' = v_mask (a_view a t) ->
+    (forall tb b, v_reg v' tb b = v_reg (a_view a t) tb b) ->
+    (forall y, In y (v_fly v') -> In y (fly a t)) -> length (v_fly v') <= 1 ->
+    (forall y, In y (v_pend v') -> In y (pend a t)) -> NoDup (keys (v_pend v')) ->
+    Core g (setv a t v').
+  Proof.
+    intros Hc V1 V2 V3 V4 Hf Hf1 Hp Hpn.
+    pose proof Hc as [K1 K2 K3 K4 K5 K6 K7 K8 K9 K10 K11 K12 K13 K14 K15 K16 K17].
+    assert (Hheld : forall t0, held (setv a t v') t0 = held a t0).
+    { intros t0. destruct (Nat.eq_dec t0 t) as [->|Hne]; [now rewrite held_same|now rewrite held_other]. }
+    assert (Hmic : forall t0, mic (setv a t v') t0 = mic a t0).
+    { intros t0. destruct (Nat.eq_dec t0 t) as [->|Hne]; [now rewrite mic_same|now rewrite mic_other]. }
+    assert (Hhas0 : forall t0, has0 (a_view (setv a t v') t0) <-> has0 (a_view a t0)).
+    { intros t0. unfold has0. fold (held (setv a t v') t0). fold (held a t0). now rewrite Hheld. }
+    assert (Hall0 : forall t0, all0 (a_view (setv a t v') t0) <-> all0 (a_view a t0)).
+    { intros t0. unfold all0. fold (held (setv a t v') t0). fold (held a t0). now rewrite Hheld. }
+    assert (Hauth : forall t0 tb' b', auth (a_view (setv a t v') t0) tb' b' <-> auth (a_view a t0) tb' b').
+    { intros t0 tb' b'. unfold auth. rewrite Hhas0, Hall0. fold (held (setv a t v') t0). fold (held a t0). now rewrite Hheld. }
+    constructor.
+    - intros l. setoid_rewrite Hheld. apply K1.
+    - intros t0 l. rewrite Hheld. apply K2.
+    - intros t1 t2 l. rewrite !Hheld. apply K3.
+    - intros l. setoid_rewrite Hheld. setoid_rewrite Hmic. apply K4.
+    - intros t0 l. rewrite Hheld, Hmic. apply K5.
+    - intros t0 l. rewrite Hmic, Hheld. apply K6.
+    - intros t0 gg tb i. rewrite Hheld. apply K7.
+    - intros t0. rewrite Hhas0. destruct (Nat.eq_dec t0 t) as [->|Hne]; [rewrite setv_same, V3|rewrite setv_other by exact Hne]; apply K8.
+    - intros t0 tb b Htb. rewrite Hauth. destruct (Nat.eq_dec t0 t) as [->|Hne]; [rewrite setv_same, V4|rewrite setv_other by exact Hne]; apply K9; auto.
+    - exact K10.
+    - exact K11.
+    - exact K12.
+    - exact K13.
+    - intros t0 x. rewrite Hheld, Hhas0. destruct (Nat.eq_dec t0 t) as [->|Hne].
+      + rewrite fly_same. intros H. apply K14. auto.
+      + rewrite fly_other by exact Hne. apply K14.
+    - intros t0. destruct (Nat.eq_dec t0 t) as [->|Hne]; [now rewrite fly_same|rewrite fly_other by exact Hne; apply K15].
+    - intros t0. rewrite Hall0. destruct (Nat.eq_dec t0 t) as [->|Hne].
+      + rewrite pend_same. intros H. apply K16. intros E. destruct (v_pend v') as [|y r]; [congruence|].
+        specialize (Hp y ltac:(now left)). rewrite E in Hp. destruct Hp.
+      + rewrite pend_other by exact Hne. apply K16.
+    - intros t0. destruct (Nat.eq_dec t0 t) as [->|Hne].
+      + rewrite pend_same, fly_same. split; auto. intros x H. destruct (K17 t) as [_ B]. destruct (B x (Hp x H)) as [B1 B2]. split; auto.
+      + rewrite pend_other, fly_other by exact Hne. apply K17.
+  Qed.
 
 End Inv.
 
